@@ -144,7 +144,7 @@ def draw_reduced(draw, spec, n_ids, cov, min_fixed=1, positive=False):
     return red, theta
 
 
-COV_UNITS = [1e-9, 1e-12, 1e-7, 1e4]
+COV_UNITS = [1e-9, 1e-12, 1e-7, 1e4, 1e9]
 
 
 def draw_cov_matrix(draw, n_ids, n_cov, units=False):
